@@ -3,6 +3,7 @@
 Case = {"config": S|E|U, "fast": bool, "actors": [[step...], ...]}
 step = ["acq", d] | ["nw", d] | ["rel", d] | ["cancel", d, target, native]
      | ["relc", d, offset(-1|0|1), which(0=head,1=second,2=last), native]   release with a cancel placed around it
+     | ["relc", d, offset, which, native, which2, native2]                  ... and a second waiter cancelled with it
 """
 from __future__ import annotations
 
@@ -62,6 +63,8 @@ def _gen(g):
                 script.append([k, d, g.int(0, n - 1), g.chance(15)])
             else:
                 script.append([k, d, g.choice([-1, 0, 0, 1]), g.choice([0, 0, 1, 2]), g.chance(25)])
+                if g.chance(30):
+                    script[-1] += [g.choice([0, 1, 2]), g.chance(25)]      # a second waiter cancelled at the same point
         actors.append(script)
     return {"config": g.choice(["S", "S", "E", "U"]), "fast": g.chance(25), "actors": actors,
             "nest": g.choice([0, 0, 1, 2]), "adapter": g.chance(20), "residue": g.chance(12)}
@@ -76,7 +79,7 @@ def strategy(tier):
 
 def run_case(case) -> Outcome:
     out = Outcome()
-    stats = {"cancel_queued": 0, "release_2plus": 0, "handoff_cancel": 0, "native": 0}
+    stats = {"cancel_queued": 0, "release_2plus": 0, "handoff_cancel": 0, "handoff_cancel_2": 0, "native": 0}
 
     # a lock created outside any event loop is an adapter that binds to the backend on first use
     prebuilt = Lock(fast_acquire=case["fast"]) if case.get("adapter") else None
@@ -206,20 +209,32 @@ def run_case(case) -> Outcome:
                     off, native = step[2], step[4]
                     if target is not None:
                         stats["handoff_cancel"] += 1
+                    target2 = None
+                    if len(step) > 5 and len(lw) > 1:
+                        target2 = lw[min(step[5], len(lw) - 1)] if step[5] < 2 else lw[-1]
+                        if target2 == target:
+                            target2 = None
+                        else:
+                            stats["handoff_cancel_2"] += 1
+
+                    def cancel_both(t, nat, _t2=target2, _n2=len(step) > 6 and bool(step[6])):
+                        do_cancel(t, nat)
+                        if _t2 is not None:
+                            do_cancel(_t2, _n2)
                     if off == -1:
                         if target is not None:
-                            do_cancel(target, native)
+                            cancel_both(target, native)
                         await asyncio.sleep(0)
                         do_release(aid)
                     elif off == 0:
                         do_release(aid)
                         if target is not None:
-                            do_cancel(target, native)
+                            cancel_both(target, native)
                     else:
                         do_release(aid)
                         await asyncio.sleep(0)
                         if target is not None:
-                            do_cancel(target, native)
+                            cancel_both(target, native)
 
         free_cycles = [0]
 
